@@ -213,6 +213,9 @@ def run(prop, a, seed, t0, tmp):
             viols.append((j, rec))
         elif st in ('inconclusive', 'error'):
             incon.append('%s/%s/%s: %s' % (j['mode'], j.get('cfgname', ''), j['shard'], str(r.get('reason', ''))[-1500:]))
+    if plan.get('cross_check') and not a.replay:
+        for j, v in plan['cross_check'](results, counters):
+            viols.append((j, v))
     mins = plan.get('minimums', lambda t: {})(tier)
     if not a.replay:
         for k, m in mins.items():
